@@ -605,6 +605,12 @@ def run(ctx, job):
         groups = []  # (form, [coefs])
         for coef, (form, const) in acc:
             placed = False
+            # pacti groups absolute terms by the text of their reduced inner expression, in which a cancelled
+            # variable (x - x) disappears while an explicit zero product (0 x) stays: forms with a zero
+            # coefficient are therefore never merged here (finer groups only make the rejection easier to accept)
+            if any(not ctx.provable(c != 0) for c in form.values()):
+                groups.append(((form, const), [coef]))
+                continue
             for g in groups:
                 gform, gconst = g[0]
                 if set(gform) == set(form) and ctx.provable(z3.And(gconst == const, *[gform[v] == form[v] for v in form])):
